@@ -45,6 +45,63 @@ class TunerError(Exception):
     pass
 
 
+class BareTunerError(Exception):
+    """an application error that keeps its detail in an attribute and hands nothing to Exception.__init__"""
+    def __init__(self, category):
+        super(BareTunerError, self).__init__()
+        self.category = category
+
+
+def fail_tuning(shape, category):
+    """The ways a tuner fails for a category (`shape` names one; FAIL_SHAPES of harness/props/c19.py states
+    the exception each of them ends in).  Only Exception subclasses: BaseException is not a tuning failure."""
+    if shape == 'msg':
+        raise TunerError('cannot tune %s' % category)
+    if shape == 'assert':
+        registry = {}
+        assert category in registry                     # bare assert: AssertionError without arguments
+    if shape == 'notimpl':
+        raise NotImplementedError                       # the class, not an instance
+    if shape == 'stopiter':
+        return next(t for t in () if t == category)     # next() of an empty generator
+    if shape == 'keyerror0':
+        raise KeyError()
+    if shape == 'lookup':
+        return {}[category]                             # KeyError(category)
+    if shape == 'bare':
+        raise BareTunerError(category)
+    if shape == 'two':
+        raise TunerError('cannot tune', category)
+    if shape == 'three':
+        raise ValueError(category, 2, None)
+    if shape == 'oserror':
+        raise OSError(2, 'No such tuning', category)
+    if shape == 'int':
+        raise TunerError(42)
+    if shape == 'none':
+        raise TunerError(None)
+    if shape == 'tuple':
+        raise TunerError((category, 1))
+    if shape == 'bytes':
+        raise TunerError(b'cannot tune')
+    if shape == 'dict':
+        raise TunerError({'category': category})
+    if shape == 'emptystr':
+        raise TunerError('')
+    if shape == 'unicode':
+        raise TunerError(u'caf\u00e9 \u2713 %s' % category)
+    if shape == 'braces':
+        raise TunerError('{} {0} {category} %s' % category)
+    if shape == 'nested':
+        raise TunerError(KeyError(category))
+    raise RuntimeError('unknown failure shape %r' % (shape,))
+
+
+def describe_error(ex):
+    """canonical text of an exception: class name and the repr of its arguments"""
+    return '%s%s' % (type(ex).__name__, ascii(tuple(ex.args)))
+
+
 class PlayerBoom(Exception):
     pass
 
@@ -180,16 +237,23 @@ def store_for(kind, recs):
 
 
 class TagTuner(EqualizerTuner):
-    def __init__(self, store, fail, journal):
+    def __init__(self, store, fail, journal, shapes=None):
         self.store = store
         self.fail = set(fail)
+        self.shapes = shapes or {}
+        self.raised = {}        # category -> the exception object its (last) failure ended in
         self.journal = journal
         self.calls = []
 
     def create_category_tuning(self, category):
         self.calls.append(category)
         if category in self.fail:
-            raise TunerError('cannot tune %s' % category)
+            try:
+                fail_tuning(self.shapes.get(category, 'msg'), category)
+            except Exception as ex:
+                self.raised[category] = ex
+                raise
+            raise RuntimeError('failure shape %r did not fail' % self.shapes.get(category))
         store, journal = self.store, self.journal
         ptag, etag, ctag, dtag = 'P:' + category, 'E:' + category, 'C:' + category, 'D:' + category
 
@@ -277,7 +341,7 @@ def one_play(case, store, script):
     # random_sample lookups draw from the process-wide generator of `random` ("use random.seed to change selection",
     # recordings_lookup.py:15): every play starts from the seed the case names, so that a run can be replayed
     random.seed(case.get('rseed', 0))
-    tuner = TagTuner(store, case.get('fail', []), journal)
+    tuner = TagTuner(store, case.get('fail', []), journal, case.get('fail_shape'))
     ids = case.get('ids')
     if ids is not None:
         ids = [store.ids[x] if isinstance(x, int) else x for x in ids]
@@ -306,7 +370,8 @@ def one_play(case, store, script):
     for c in cats:
         v = result[c]
         if isinstance(v, Exception):
-            out[c] = {"error": "%s(%s)" % (type(v).__name__, v)}
+            # the category's result is the very object the tuner raised ("that error")
+            out[c] = {"error": describe_error(v), "same": v is tuner.raised.get(c)}
         elif hasattr(v, '__next__'):
             out[c] = {"cmps": []}
             live.append(c)
